@@ -16,7 +16,8 @@ import (
 // process-wide sequence number taken at the point of the call (events that
 // describe a change are emitted under the lock that protects the change, so
 // the sequence is consistent with the lock order), the name of the point and
-// its arguments. Points named "gate:*" are emitted outside any lock, before a
+// its arguments. Points named "gate:*" are emitted outside any lock (except
+// "gate:complete", under j.mu in markResizeInstructionComplete), before a
 // step of the listener / job goroutine; a hook may block there to order that
 // step with respect to other events.
 var VerifResizeHook func(c interface{}, seq uint64, point string, kv ...interface{})
